@@ -12,7 +12,7 @@ SPEC = {
         "Sema.C09.C09_private_safe",
         "Sema.C09.C09_serial_equiv",
         "Sema.C09.C09_quiescent_warm_cold",
-        # "Sema.C09.C09_partial",
+        "Sema.C09.C09_partial",
         "Sema.C09.C09_shared_unsafe",
         "Sema.C09.C09_shared_unsafe_w1",
         "Sema.C09.C09_shared_unsafe_w2a",
